@@ -1439,6 +1439,15 @@ func lemmaUpdateThenNew(s *bufferSlice) {
 //@   ensures[C08] l.pinnedList.len == 0
 //@   at call (*sliceList).size#0 assume l.sliceList.len > 0 ==> l.sliceList.frontSlice != nil && (l.sliceList.len > 1 ==> l.sliceList.frontSlice.nextSlice != nil) && listOK(l.sliceList)
 
+// releasePreviousReadAndReserve (long-stream reuse): releases everything parked; a wrapper that goes straight
+// back to the object pool has been taken off this buffer's list first (otherwise the pool hands the same wrapper to
+// another buffer while this one still links it), and only a heap wrapper goes that way
+//@ func (*linkedBuffer).releasePreviousReadAndReserve
+//@   requires bufOK(l)
+//@   ensures[C08] l.pinnedList.len == 0
+//@   at call (*sliceList).size#0 assume l.sliceList.len > 0 ==> l.sliceList.frontSlice != nil && wfHeader(l.sliceList.frontSlice) && (l.sliceList.len > 1 ==> l.sliceList.frontSlice.nextSlice != nil) && listOK(l.sliceList)
+//@   at call? putBackBufferSlice#0 check[C06] a0 != nil && !a0.isFromShm && a0 != l.sliceList.frontSlice && a0 != l.sliceList.backSlice && l.sliceList.len == 0
+
 // thin contracts used by Flush / close / clean (C05, C07, C09)
 // recycle: every slice of the buffer is released exactly once (shared-memory slices through the buffer
 // manager, others back to the wrapper pool) and the buffer ends empty
